@@ -151,7 +151,9 @@ def hGetH (args : List Bytes) : HRes :=
   match args with
   | key :: f :: _ => .exec fun s now _ =>
       call (Api.hget s now key f) fun s o =>
-        done s [match o with | .bytes (some (c :: r)) => .bulk (c :: r) | _ => .nullBulk]
+        -- a field that exists with the empty string as its value is an empty bulk, not null (since the
+        -- repair "HGET of a field holding the empty string replied null")
+        done s [match o with | .bytes (some v) => .bulk v | _ => .nullBulk]
   | _ => errReply
 
 def hDelH (args : List Bytes) : HRes :=
